@@ -609,8 +609,18 @@ def gen_list_op_wild(rng, spec, cfg, closure_names, i):
     m = rng.choice(["append", "insert", "extend", "iadd", "imul", "pop", "remove", "delitem", "setitem", "clear",
                     "extend", "iadd", "imul", "remove", "pop", "extend_self", "iadd_self", "extend_from", "delslice",
                     "setslice", "reverse", "sort"])
+    dups = sorted({x for x in cur if cur.count(x) > 1})
+    if dups and rng.random() < 0.4:
+        # an element held several times: removing / popping / deleting one occurrence must leave the others
+        m = rng.choice(["remove", "remove", "pop", "delitem"])
     op = {"op": "list", "obj": name, "attr": attr, "method": m}
     keep_one = attr == "devices"
+    if dups and m == "remove":
+        op["args"] = [rng.choice(dups)]
+        op["by"] = rng.choice(["wrapper", "object"])
+        if rng.random() < 0.4:
+            op["alias"] = "use"
+        return op
     if m == "extend_from":
         others = [n for n in cands if spec["objs"][n]["cls"] == spec["objs"][name]["cls"]]
         op["args"] = [rng.choice(others), attr]
